@@ -1,6 +1,7 @@
 package main
 
 import (
+	"bytes"
 	"crypto/elliptic"
 	"fmt"
 	"math/big"
@@ -53,6 +54,19 @@ func derInt(b []byte) []byte {
 }
 
 func targets(w *bx.World) []target {
+	// requests that are correctly encrypted and signed but whose INNER plaintext is malformed:
+	// every truncation of a valid inner request, and a few other shapes
+	var inners []bx.Seed
+	innerPlain := [][]byte{}
+	for k := 0; k <= len(w.Inner); k += 1 {
+		if k < 4 || k > 250 || k%16 == 0 {
+			innerPlain = append(innerPlain, w.Inner[:k])
+		}
+	}
+	innerPlain = append(innerPlain, append(append([]byte{}, w.Inner...), 0), append(append([]byte{}, w.Inner[:257]...), 0xff, 0xff), bytes.Repeat([]byte{0xff}, 300))
+	for i, ip := range innerPlain {
+		inners = append(inners, bx.Seed{Name: fmt.Sprintf("crafted-inner-%d", i), Msg: bx.CraftT3(0, w.W3, fmt.Sprintf("inner-%d", i), ip), Plain: true})
+	}
 	// boundary (r, s) pairs for every consumer of a peer-supplied ECDSA signature
 	n384 := elliptic.P384().Params().N
 	var rawPairs, derPairs, reqPairs []bx.Seed
@@ -140,7 +154,7 @@ func targets(w *bx.World) []target {
 	add(target{Name: "type3.Issuer.Evaluate", Step: true, Run: func(in []byte) bool {
 		_, _, err := w.W3.Issuer.Evaluate(in)
 		return err == nil
-	}, Seeds: append([]bx.Seed{{Name: "request3", Msg: w.O3.Request, Fields: []bx.Field{{0, 2}, {83, 2}}}}, reqPairs...)})
+	}, Seeds: append(append([]bx.Seed{{Name: "request3", Msg: w.O3.Request, Fields: []bx.Field{{0, 2}, {83, 2}}}}, reqPairs...), inners...)})
 	add(target{Name: "type3.InnerTokenRequest.Unmarshal", Run: func(in []byte) bool {
 		r := new(type3.InnerTokenRequest)
 		ok := r.Unmarshal(in)
